@@ -18,6 +18,7 @@ import (
 // lookup, dial or probe.
 func VerifCloseRace() {
 	c, e := vCluSetup()
+	e.zkLike = verifBool()
 	known := verifBool()
 	reg := vMkRegion(0, 1, nil, nil)
 	if verifParam("ONLINE") == 1 {
